@@ -94,7 +94,7 @@ def run(ctx):
               lambda P_: checked_calls(P_, r'GroupStateStorage::(epoch|max_epoch_id)$'), floor=2)
     I = 'GroupStateRepository::insert'
     ctx.check('GUARD', 'archived epochs form a chain (id = max + 1)',
-              lambda P_: guard(P_, I, '!=', r'PriorEpoch::epoch_id\(epoch\)', r'find_max_id', 'InvalidEpoch'), floor=1)
+              lambda P_: guard(P_, I, '!=', r'PriorEpoch::epoch_id\(epoch\)', r'find_max_id', 'InvalidEpoch', optional=True), floor=1)
     ctx.check('GUARD', 'archived epochs belong to this group',
               lambda P_: guard(P_, I, '!=', r'PriorEpoch::group_id\(epoch\)', r'self\.group_id', 'GroupIdMismatch'), floor=1)
     ctx.check('WHO-CALLS', 'prior epochs are archived only when the epoch changes',
